@@ -5,7 +5,7 @@ HERE = os.path.dirname(os.path.dirname(os.path.abspath(__file__)))
 TECH = 'contract-based deductive verification: clang AST of /repo lowered to C each run, CBMC code contracts (requires/ensures/assigns/loop invariants) enforced per function with goto-instrument --dfcc'
 NOTE = ('Trusted: clang 14 AST, tools/cxx2c.py lowering (classes->structs, refs->pointers, RAII dtors explicit), CBMC 6.11 + DFCC + CaDiCaL, '
         'callback/logger stubs as the model of user code, bindings between symbolic constants checked natively on the witness only, contracts restated at a caller\'s abstraction level (evidence: assumed_contracts). '
-        'Both configurations (int payload, no payload type) and states with / without callbacks are witnessed. Thorough tier = quick tier + the bounded plan / constructor units at larger bounds (capacity 7 / 5) + the full-capacity array append. See evidence assumptions.')
+        'Witnessed builds: int payload, no payload type, payload larger than its alignment, logging on / verbose / compiled out, value and reference context, manual and automatic activation; states with all / one / no callbacks. Thorough tier = quick tier + the bounded plan / constructor units at larger bounds (capacity 7 / 5) + the full-capacity array append. See evidence assumptions.')
 CLAIMED = {
  'C01': dict(ref='4 (C01)', text='Proof: the enter/exit protocol is a ghost automaton (g_entered, g_root_entered) whose transitions are preconditions of every lifecycle callback stub; the machine invariant (one active state = entered state, nothing staged) is re-established by every public operation under contract (R_ initialEnter/finalExit/processRequest/update/react/replayTransition/load, RV_ load) for every state count (CS_ split induction), substitution limit and callback behaviour.'),
  'C02': dict(ref='4 (C02)', text='Proof: request makers have the registry outside their frame and overwrite the single request; R_::processTransitions carries a loop invariant "accepted transition == most recent request not cancelled (ghost survivor), staged destination == its destination" with a decreasing variant; postcondition active == survivor destination reached by exit/enter or reenter, unchanged without survivor. Unbounded in N, L and callback behaviour.'),
